@@ -25,7 +25,9 @@ SIGKILL of any subset of nodes at random instants including all at once, restart
 of every key through EVERY node: the linearizability check with those final reads, the per-node agreement and the ledger (INCR-only
 counter, SADD-only set: every acknowledged operation must be reflected on every node) are the C08 verdict.  The minimal scenarios of
 the three repaired defects (list in the keyspace at the snapshot threshold; snapshot + full restart; follower caught up by MsgSnap)
-run on every check and must pass."""
+run on every check and must pass.  Thorough tier only: scenarios with proxied links (network partitions between live nodes, see
+c07.py / harness/cluster_links.go) - a live follower cut off across the snapshot threshold and caught up by MsgSnap after the heal,
+an isolated leader, each combined with SIGKILL of all nodes."""
 from .. import core, clustersuite, readygen, snapgen
 
 LEVEL = "proof"
